@@ -1,6 +1,6 @@
 import core
 META = {
-    'id': 'C05', 'props_v': 'Props/C05.v', 'bin': 'c05', 'profile': 'dev', 'hooks': True, 'groups': ['Wire'],
+    'id': 'C05', 'props_v': 'Props/C05.v', 'bin': 'c05', 'extra_bins': ['c05net'], 'profile': 'dev', 'hooks': True, 'groups': ['Wire'],
     'design_ref': 'DESIGN.md section 5, C05; design/C05.md',
     'technique': 'Coq proof about a generic schema-directed model of the postcard wire format (round trip for every schema and value, allocation bound, window / source / size-gate / cap theorems) + schemas and limits regenerated from the Rust source + differential decoding (vm_compute) against the real decoders under catch_unwind',
     'level_text': 'PARTIAL. Proved (Props/C05.v) for the model: decode(encode v ++ rest) = (v, rest) for every generated schema and well-typed value; the number of dynamically sized items in a decoded value never exceeds the number of bytes consumed; a framed message is surfaced only with a timestamp in [now-300, now+30] and always carries the connection id, whatever the payload claims; DHT messages over 65536 bytes are refused without consulting the decoder; find-node replies hold at most 20 nodes; no value over 512 bytes is ever stored (all request histories); records over 512 bytes are refused by serialize and deserialize. Observed, not proved: panic-freedom and allocation of the REAL decoders (every call runs under catch_unwind on random and mutated inputs up to 128 KiB and must agree with the total model on accept/reject, canonical re-encoding and bytes consumed).',
